@@ -36,7 +36,7 @@ P.open = _fake_open
 
 NW_LINES = ["", "# c", "#", "BASIS \"ao basis\" PRINT"]
 GBS_LINES = ["", "! c", "!"]
-ELS = [("H", "He"), ("He", "Li"), ("Li", "H")]
+ELS = [("H", "He"), ("He", "Li"), ("Li", "H"), ("B", "C")]
 
 
 def _nw(n, k0, k1, gap, e):
@@ -75,7 +75,7 @@ def nwchem_pre_twin(n: int, k0: int, k1: int) -> bool:
 
 def nwchem_gap(gap: int, e: int, k0: int) -> bool:
     """
-    pre: 1 <= gap <= 3 and 0 <= e < 3 and 0 <= k0 < 4
+    pre: 1 <= gap <= 3 and 0 <= e < 4 and 0 <= k0 < 4
     post: _
     """
     return same_parse(_nw(1, k0, 0, gap, e), expected_nwchem(ELS[e]))
@@ -83,10 +83,10 @@ def nwchem_gap(gap: int, e: int, k0: int) -> bool:
 
 def nwchem_gap_twin(gap: int, e: int, k0: int) -> bool:
     """
-    pre: 1 <= gap <= 3 and 0 <= e < 3 and 0 <= k0 < 4
+    pre: 1 <= gap <= 3 and 0 <= e < 4 and 0 <= k0 < 4
     post: _
     """
-    return same_parse(_nw(1, k0, 0, gap, e), expected_nwchem(ELS[(e + 1) % 3]))
+    return same_parse(_nw(1, k0, 0, gap, e), expected_nwchem(ELS[(e + 1) % 4]))
 
 
 def gbs_pre(n: int, k0: int, k1: int) -> bool:
@@ -107,7 +107,7 @@ def gbs_pre_twin(n: int, k0: int, k1: int) -> bool:
 
 def gbs_gap(gap: int, e: int, k0: int) -> bool:
     """
-    pre: 1 <= gap <= 3 and 0 <= e < 3 and 0 <= k0 < 3
+    pre: 1 <= gap <= 3 and 0 <= e < 4 and 0 <= k0 < 3
     post: _
     """
     return same_parse(_gbs(1, k0, 0, gap, e), expected_gbs(ELS[e]))
@@ -115,10 +115,10 @@ def gbs_gap(gap: int, e: int, k0: int) -> bool:
 
 def gbs_gap_twin(gap: int, e: int, k0: int) -> bool:
     """
-    pre: 1 <= gap <= 3 and 0 <= e < 3 and 0 <= k0 < 3
+    pre: 1 <= gap <= 3 and 0 <= e < 4 and 0 <= k0 < 3
     post: _
     """
-    return same_parse(_gbs(1, k0, 0, gap, e), expected_gbs(ELS[(e + 1) % 3]))
+    return same_parse(_gbs(1, k0, 0, gap, e), expected_gbs(ELS[(e + 1) % 4]))
 
 
 NOISE = ["blank", "comment"]
@@ -140,7 +140,7 @@ def nwchem_noise(kind: int, pos: int, e: int) -> bool:
     """
     a blank or a comment line after primitive row `pos` inside every shell that has a further row
 
-    pre: 0 <= kind < 2 and 0 <= pos < 3 and 0 <= e < 3
+    pre: 0 <= kind < 2 and 0 <= pos < 3 and 0 <= e < 4
     post: _
     """
     return same_parse(_nw_noise(kind, pos, e), expected_nwchem(ELS[e]))
@@ -148,15 +148,15 @@ def nwchem_noise(kind: int, pos: int, e: int) -> bool:
 
 def nwchem_noise_twin(kind: int, pos: int, e: int) -> bool:
     """
-    pre: 0 <= kind < 2 and 0 <= pos < 3 and 0 <= e < 3
+    pre: 0 <= kind < 2 and 0 <= pos < 3 and 0 <= e < 4
     post: _
     """
-    return same_parse(_nw_noise(kind, pos, e), expected_nwchem(ELS[(e + 1) % 3]))
+    return same_parse(_nw_noise(kind, pos, e), expected_nwchem(ELS[(e + 1) % 4]))
 
 
 def gbs_noise(kind: int, pos: int, e: int) -> bool:
     """
-    pre: 0 <= kind < 2 and 0 <= pos < 3 and 0 <= e < 3
+    pre: 0 <= kind < 2 and 0 <= pos < 3 and 0 <= e < 4
     post: _
     """
     return same_parse(_gbs_noise(kind, pos, e), expected_gbs(ELS[e]))
@@ -164,7 +164,7 @@ def gbs_noise(kind: int, pos: int, e: int) -> bool:
 
 def gbs_noise_twin(kind: int, pos: int, e: int) -> bool:
     """
-    pre: 0 <= kind < 2 and 0 <= pos < 3 and 0 <= e < 3
+    pre: 0 <= kind < 2 and 0 <= pos < 3 and 0 <= e < 4
     post: _
     """
-    return same_parse(_gbs_noise(kind, pos, e), expected_gbs(ELS[(e + 1) % 3]))
+    return same_parse(_gbs_noise(kind, pos, e), expected_gbs(ELS[(e + 1) % 4]))
